@@ -157,6 +157,9 @@ func verifyFuncPass(P *Program, DB *ContractDB, fn *ssa.Function, k *FuncContrac
 	if k.HasMod && !k.ModAll && !k.Flags["frame-unchecked"] {
 		vc.computeFrame(env, k)
 	}
+	if k.Flags["frame-unchecked"] {
+		vc.Assumptions["modifies clause of "+vc.qname+" is assumed, not checked against its body (flag frame-unchecked)"] = true
+	}
 	ex := fr.run("true", st)
 
 	// exceptional exits (panics): deferred functions run, then either recovered or propagated
